@@ -363,7 +363,33 @@ def resumed_keys(M):
     return h
 
 
+def persisted_watermark(BM):
+    """BlePairing._update_cached_state_num: what is written to the cache (and restored after a restart as the replay watermark of
+    encrypted broadcasts) is the new state number, not the one before"""
+    from . import ble_adv as BA
+
+    def h(ex):
+        old = ex.choice("cached_state_number", ["none", "a-number"])
+        o = ex.fresh_int("old", 0, 65535)
+        n = ex.fresh_int("new", 0, 65535)
+        p = BA.new_pairing(BM, "uint8", True, None)
+        p._accessories_state.state_num = None if old == "none" else o
+        persisted = []
+        p._update_accessories_state_cache = lambda: persisted.append(p._accessories_state.state_num)
+        p._update_cached_state_num(n)
+        ex.require(p._accessories_state.state_num == n, "the state number held in memory is the new one")
+        changed = old == "none" or decide(o != n)
+        if changed:
+            ex.tag("persisted")
+            ex.require(len(persisted) == 1 and persisted[0] == n, "a changed state number is persisted, and what is persisted is the new number")
+        else:
+            ex.require(not persisted or persisted[-1] == n, "nothing older than the current number is persisted")
+        return ex.observe([len(persisted)])
+    return h
+
+
 def build(tier, mutate=None):
+    from . import c05 as c05m
     C = copies(mutate)
     R = reals()
     units = [Unit("ip/receive-step", ip_receive(C), ip_receive(R), bounds={"recv_counter": "0..2^48 (symbolic)", "frame": "genuine with any counter 0..2^48, or forged"},
@@ -378,7 +404,17 @@ def build(tier, mutate=None):
     units.append(Unit("coap/post_bytes-step", coap_post(C), coap_post(R), bounds={"counters": "0..2^48 (symbolic)", "exchange outcome": POST_OUTCOMES},
                       regions=["completed", "cancelled"]))
     if tier != "canary":
+        from . import ble_adv as BA0
         from . import c01
+        units.append(Unit("ble/persisted-watermark", persisted_watermark(BA0.copies(mutate)), persisted_watermark(BA0.reals()),
+                          bounds={"old / new state number": "0..65535 each (symbolic), or nothing cached"}, regions=["persisted"]))
+        # one session key is never used for two sessions: the controller's exchange key is fresh (unit of C01) ...
+        C1, R1 = c01.copies(mutate), c01.reals()
+        units.append(Unit("session/fresh-exchange-key (unit of C01)", c01.two_exchanges(C1), c01.two_exchanges(R1),
+                          bounds={"exchanges": 2, "replayed": "the first exchange's genuine M2"}, regions=["replay-rejected"]))
+        # ... and the receive counter survives every read boundary (unit of C05)
+        units.append(Unit("ip/receive-two-frames-any-cuts (unit of C05)", c05m.inbound(C.ipc, 2, 2, None), c05m.inbound(R.ipc, 2, 2, None), split=True,
+                          bounds={"frames": 2, "reads": 2, "cuts": "all positions (symbolic)"}, regions=["interior-cut"]))
         units.append(Unit("session/resumed-keys-differ", resumed_keys(c01.copies(mutate)), resumed_keys(c01.reals()),
                           bounds={"exchange": "an accepted Pair-Resume (any new session id)"}, regions=["resumed"]))
     # IP send step (the outbound half of C05 from an arbitrary send counter) and the BLE broadcast step (C18) complete the picture
